@@ -162,6 +162,17 @@ def rule_fresh(ctx) -> None:
                 ctx.check(not typed, "C19.FRESH", ctx.okey(f"{rt.qual}/per-turn-ctx-value-rewritten-for-any-clock"), rt.loc(c), f"ctx.{attr} is refreshed for every numeric clock",
                           f"ctx.{attr} is refreshed only where `{typed[0] if typed else ''}`: with a float clock (now_ms = 22345.0) a reused ctx keeps the previous turn's value and the turn's reflection entry "
                           "is stamped with it - the same id and text get another timestamp than on a fresh ctx")
+                # ... and when the derivation itself fails inside a swallowing try (a clock beyond year 9999 cannot be rendered), the handler
+                # clears the value: otherwise the earlier turn's value survives on a reused ctx
+                for st, part in enclosing(ctx.prog, rt, c):
+                    if isinstance(st, ast.Try) and part == "body" and any(isinstance(y, ast.Call) for y in ast.walk(c.args[2])):   # the derivation itself sits in the try
+                        swallow = [h for h in st.handlers if not any(isinstance(y, ast.Raise) for b in h.body for y in ast.walk(b))]
+                        cleared = all(any(isinstance(y, ast.Call) and dotted(y.func) in ("setattr", "delattr") and len(y.args) >= 2 and const_str(y.args[1]) == attr for b in h.body for y in ast.walk(b))
+                                      for h in swallow)
+                        ctx.check(cleared, "C19.FRESH", ctx.okey(f"{rt.qual}/per-turn-ctx-value-cleared-when-underivable"), rt.loc(st), f"a failed derivation of ctx.{attr} clears the value of an earlier turn",
+                                  f"the try around `{src(c)[:50]}` swallows a failed derivation and leaves ctx.{attr} as it was: on a ctx reused across turns a clock that cannot be rendered (now_ms beyond "
+                                  "year 9999) keeps the PREVIOUS turn's value, and this turn's reflection entry is stamped with it - id and timestamp are no function of agent, turn, slot and text")
+                        break
                 ctx.check(not stale, "C19.FRESH", ctx.okey(f"{rt.qual}/per-turn-ctx-value-rewritten"), rt.loc(c), f"ctx.{attr} is derived from this turn's inputs on every turn",
                           f"ctx.{attr} is derived from this turn's inputs only `if not hasattr(ctx, '{attr}')`: a ctx object reused across turns keeps the first turn's value - "
                           "reflection entries of later turns get the first turn's timestamp, so id and timestamp are not functions of agent, turn, slot and text")
@@ -239,6 +250,35 @@ def rule_plan_request_fresh(ctx) -> None:
         ctx.check(ok, "C19.GATE", ctx.okey(f"{rp.qual}/planner-branch-rewrites-the-request"), rp.loc(r.ast), f"this planner branch (re)writes state.{sorted(flags)[0]} before it returns",
                   f"this branch of run_policy returns without touching state.{sorted(flags)[0]}, which the reflection gate falls back on when plan.reflection is false: a request left by an earlier "
                   "LLM-planned turn stays set, and a turn whose plan does not request reflection runs it and writes a memory entry")
+
+
+def rule_plan_request_every_state_shape(ctx) -> None:
+    """the gate looks the stashed request up as a KEY of a dict state and as an ATTRIBUTE of any other: whoever writes or clears
+    it must do so in both shapes (setattr on a plain dict raises and is swallowed; hasattr on it is False - a request stashed on
+    a dict state is then never cleared), and the gate itself consumes it - run_turn plans through deliberate(), which never
+    rewrites the flag, so left in place it opens "requested by the plan" for every later turn."""
+    runner = ctx.func(RUNNER)
+    flags = {const_str(c.args[0]) for c in walk_no_defs(runner.node) if isinstance(c, ast.Call) and call_tail(c) == "get" and c.args and const_str(c.args[0]) and "reflection" in const_str(c.args[0]) and "flag" in const_str(c.args[0])}
+    if not flags:
+        raise AnalysisError("anchor-vanished: the gate's dict-shaped read of the planner-reflection flag")
+    flag = sorted(flags)[0]
+
+    def writes(fn):
+        attr = [x for x in walk_no_defs(fn.node) if isinstance(x, ast.Call) and dotted(x.func) == "setattr" and len(x.args) == 3 and const_str(x.args[1]) == flag]
+        key = [x for x in walk_no_defs(fn.node) if isinstance(x, ast.Assign) and any(isinstance(t, ast.Subscript) and const_str(t.slice) == flag for t in x.targets)]
+        return attr, key
+
+    rp = ctx.func("clematis.engine.stages.t3.policy:run_policy")
+    a, k = writes(rp)
+    ctx.floor("C19.GATE", "attribute-shaped writes of the request flag in run_policy", len(a), 2)
+    ctx.check(len(k) >= len(a), "C19.GATE", f"{rp.qual}/request-flag-written-in-both-state-shapes", rp.loc(a[0]) if a else rp.loc(), f"every write of state.{flag} has its state[{flag!r}] twin",
+              f"run_policy writes / clears the request flag with setattr only ({len(a)} sites, {len(k)} key stores): on a dict state setattr raises (swallowed) and hasattr is False, while the gate reads "
+              f"state.get({flag!r}) - a request stashed on a dict state is never cleared and later turns whose plan requests nothing reflect and write memory entries")
+    a2, k2 = writes(runner)
+    cleared = any(isinstance(x.args[2], ast.Constant) and x.args[2].value is False for x in a2) and any(isinstance(x.value, ast.Constant) and x.value.value is False for x in k2)
+    ctx.check(cleared, "C19.GATE", f"{runner.qual}/request-flag-consumed-by-its-turn", runner.loc(), "the gate resets the stashed request (both state shapes) once it has read it",
+              f"the gate reads state[{flag!r}] / state.{flag} and leaves it set: run_turn plans through deliberate(), which never rewrites the flag, so one request opens the 'requested by the plan' gate for "
+              "every later turn - reflection runs and writes although the plans of those turns did not ask for it")
 
 
 def rule_cap(ctx) -> None:
@@ -574,6 +614,7 @@ def run(ctx) -> None:
     rule_gate(ctx)
     rule_fresh(ctx)
     rule_plan_request_fresh(ctx)
+    rule_plan_request_every_state_shape(ctx)
     rule_cap(ctx)
     rule_tok(ctx)
     rule_stored_text_not_lengthened(ctx)
